@@ -22,8 +22,8 @@ def mir_for(scr, crate, features=()):
     if key in cache:
         return cache[key]
     src = os.path.join(scr.root, "mirsrc")
-    if not os.path.isdir(src):
-        subprocess.check_call(["rsync", "-a", "--exclude", "/target", "--exclude", "/.git", xv.REPO + "/", src + "/"])
+    if not cache:
+        subprocess.check_call(["rsync", "-a", "--delete", "--exclude", "/target", "--exclude", "/.git", xv.REPO + "/", src + "/"])
     tdir = os.path.join(scr.root, "mirtarget")
     seed = os.path.join(xv.SEED_DIR, "mir-target")
     if not os.path.isdir(tdir) and os.path.isdir(seed):
